@@ -272,7 +272,7 @@ func init() {
 		Outside: []string{"the HTTP/2 server, ws.UpgradeHTTP and WebSocket frame I/O", "user-supplied interceptors", "real protobuf / JSON codecs and gzip"},
 	})
 
-	regAssume := append([]string{"descriptor discovery is stubbed: the reflection stream is a fake; under the engine proto.Unmarshal(FileDescriptorProto) / protodesc.NewFile / sha256 / newResolver are replaced (file name as opaque bytes, fake descriptors, injective hash) while the native replay uses real descriptor bytes and protobuf-go", "RegisterConn is exercised as its body minus the dial (clone, addConnHandler, storeState, CloseSend)"}, driverAssume...)
+	regAssume := append([]string{"descriptor discovery is stubbed: the reflection stream is a fake; under the engine proto.Unmarshal(FileDescriptorProto) / protodesc.NewFile / sha256 / newResolver are replaced (file name as opaque bytes, fake descriptors, injective hash) while the native replay uses real descriptor bytes and protobuf-go", "the REAL (*Mux).RegisterConn runs; only the reflection client of the backend connection is answered by the harness (fake conversation under the engine; natively a live in-process gRPC backend whose reflection service describes the current service set)"}, driverAssume...)
 	addProp(&PropSpec{
 		ID: "C11",
 		Harnesses: []HarnessSpec{
